@@ -16,11 +16,25 @@ theorem arp_len (ht pt op : Nat) : (Gen.protocol.ARP.Len
       { HWType := n16 ht, ProtoType := n16 pt, HWLength := n8 6, ProtoLength := n8 4, Operation := n16 op }) = 28 := by
   simp only [Gen.protocol.ARP.Len]; rfl
 
-theorem option_len (ty ln : Nat) (h : ln < 256) :
+/-- an in-range option type is the zero byte only when it is 0 -/
+theorem n8_eq_zero (ty : Nat) (h : ty < 256) : n8 ty = 0 ↔ ty = 0 := by
+  rw [← UInt8.toNat_inj, n8_toNat ty h]; rfl
+
+/-- an option that is not Pad1 reports `Length + 2` bytes -/
+theorem option_len (ty ln : Nat) (ht : ty < 256) (h0 : ty ≠ 0) (h : ln < 256) :
     (Gen.protocol.Option.Len { Type_ := n8 ty, Length := n8 ln }).toNat = ln + 2 := by
-  simp only [Gen.protocol.Option.Len, UInt16.toNat_add, UInt64.toNat_toUInt16, UInt8.toNat_toUInt64, n8_toNat _ h]
+  have hne : ¬ n8 ty = 0 := fun e => h0 ((n8_eq_zero ty ht).mp e)
+  simp only [Gen.protocol.Option.Len, if_neg hne, UInt16.toNat_add, UInt64.toNat_toUInt16, UInt8.toNat_toUInt64,
+    n8_toNat _ h]
   have : (2 : UInt16).toNat = 2 := rfl
   rw [this]; omega
+
+/-- a Pad1 option (type 0) reports one byte, whatever its `Length` field holds -/
+theorem option_len_pad1 (ln : Nat) :
+    (Gen.protocol.Option.Len { Type_ := n8 0, Length := n8 ln }).toNat = 1 := by
+  have h0 : n8 0 = 0 := rfl
+  simp only [Gen.protocol.Option.Len, h0, if_true]
+  rfl
 
 /-- `8 * (uint16(HEL) + 1)` does not wrap -/
 theorem ext_len (hel : Nat) (h : hel < 256) :
